@@ -195,11 +195,15 @@ def obligations(tier: str) -> List[dict]:
         for m in ('amr', 'custom', 'default'):
             for src in (0, 1, 2):
                 for x0 in range(4):
-                    for x1 in range(5):
-                        add(m, 2, 3, src, 3000, x0=x0, x1=x1)
-                    for ops in OPS2:
-                        add(m, 3, 2, src, 3000, x0=x0, i0_op=ops[0],
-                            i1_op=ops[1])
+                    add(m, 2, 1, src, 900, x0=x0)
+                    if m != 'default':
+                        add(m, 2, 2, src, 1800, x0=x0)
+        for src in (0, 1, 2):
+            for x0 in range(4):
+                add('amr', 1, 3, src, 1800, x0=x0)
+        for x0 in range(4):
+            for ops in OPS2:
+                add('amr', 3, 1, 0, 1800, x0=x0, i0_op=ops[0], i1_op=ops[1])
     return obs
 
 
